@@ -211,6 +211,9 @@ func genC04(c *Ctx) {
 			}
 		}
 	}
+	// 2c. exotic cells (library, pruned branch, Merkle proof / update) through every boc.Cell
+	//     position: type, level mask and hash are kept; decode -> encode reproduces the hash
+	c03ExoticFamily(c, "c04")
 	// 3. the external-message envelope of ton.CreateExternalMessage
 	mt, st := c03Types["tlb.Message"], c03Types["tlb.StateInit"]
 	for i := 0; i < c.Scale(120, 2000); i++ {
